@@ -594,7 +594,7 @@ pub fn check_case(c: &Case) -> Result<CaseInfo, Failure> {
 }
 
 pub fn run(ctx: &Ctx, started: Instant) -> i32 {
-    let per_role = ctx.tier.pick(6_000u32, 100_000);
+    let per_role = ctx.tier.pick(24_000u32, 200_000);
     let stats = par_shards(WORKERS, |shard| {
         let mut st = Stats::default();
         let role = Role::ALL[shard % 4];
